@@ -16,7 +16,7 @@
 using namespace vh;
 
 enum Kind { K_I8, K_U8, K_I16, K_U16, K_I32, K_U32, K_L, K_UL, K_LL, K_ULL, K_C, K_WC, K_C32, K_B,
-            K_S, K_SN, K_STS, K_SS, K_F64 };
+            K_S, K_SN, K_STS, K_SS, K_F64, K_NEST };
 
 struct AV {
     Kind k = K_I32;
@@ -50,7 +50,17 @@ inline void format_type(const ST::format_spec &f, ST::format_writer &o, const AV
     case K_STS: ST::format_type(f, o, *a.sts); break;
     case K_SS: ST::format_type(f, o, *a.ss); break;
     case K_F64: ST::format_type(f, o, a.d); break;
+    // a user-defined formatter that itself calls ST::format to build its text (a common pattern), then renders that
+    // text with the field's width / alignment / precision
+    case K_NEST: { ST::string text = ST::format("{}", *a.sts); ST::format_type(f, o, text); break; }
     }
+}
+// a user-defined type of its own for the single-argument route
+struct Nested { const ST::string *text; };
+inline void format_type(const ST::format_spec &f, ST::format_writer &o, const Nested &n)
+{
+    ST::string t = ST::format("{}", *n.text);
+    ST::format_type(f, o, t);
 }
 
 enum Sink { S_STRING, S_LATIN1, S_FILE, S_OSTREAM, S_WOSTREAM, S_U16, S_U32 };
@@ -172,6 +182,11 @@ static void parse_args(const Args &a, size_t from, Parsed &p)
             Block<char> b = units<char>(val);
             p.sts.push_back(ST::string::from_validated(b.data(), b.size()));
             v.sts = &p.sts.back();
+        } else if (kind == "n") {
+            v.k = K_NEST;
+            Block<char> b = units<char>(val);
+            p.sts.push_back(ST::string::from_validated(b.data(), b.size()));
+            v.sts = &p.sts.back();
         } else if (kind == "ss") {
             v.k = K_SS;
             Block<char> b = units<char>(val);
@@ -207,6 +222,7 @@ static std::string run1(Sink s, Mode m, const char *fmt, const AV &a)
     case K_STS: return run(s, m, fmt, *a.sts);
     case K_SS: return run(s, m, fmt, *a.ss);
     case K_F64: return run(s, m, fmt, a.d);
+    case K_NEST: { Nested n{a.sts}; return run(s, m, fmt, n); }
     }
     return "";
 }
@@ -272,9 +288,34 @@ static std::string do_extract(const std::string &tok)
 }
 #endif
 
+// a user-defined format_writer driven by hand through the public next_format() / parse_format() interface, which keeps
+// going after ST::bad_format was thrown and caught (draining the rest of the format string): whatever state the failed
+// parse left behind, the scan may not pass the terminating NUL, hang or crash.  Only that is observed.
+struct CollectWriter : public ST::format_writer {
+    size_t bytes = 0;
+    explicit CollectWriter(const char *f) : ST::format_writer(f) {}
+    CollectWriter &append(const char *, size_t size) override { bytes += size; return *this; }
+    CollectWriter &append_char(char, size_t count = 1) override { bytes += count; return *this; }
+};
+static std::string do_writer_retry(const Args &a)
+{
+    Block<char> fb = units<char>(a[0], 1);
+    CollectWriter w(fb.data());
+    for (int round = 0; round < 64; ++round) {
+        try {
+            while (w.next_format()) (void)w.parse_format();
+            break;
+        } catch (const ST::bad_format &) {
+        } catch (const std::out_of_range &) {
+        }
+    }
+    return "retry";
+}
+
 static std::string dispatch(const std::string &op, const Args &a)
 {
     if (op == "format") return do_format(a);
+    if (op == "writer_retry") return do_writer_retry(a);
     if (op == "strtol") {
         Block<char> b = units<char>(a[0], 1);
         char *end = nullptr;
